@@ -145,6 +145,7 @@ func c05Owner(r *Run, round int) {
 		TTLs:    rng.Intn(2) == 0,
 		Delay:   rng.Intn(3),
 	}
+	defer r.Case(fmt.Sprintf("owner round %d maxsize=%d clients=%d pool=%v", round, cfg.MaxSize, cfg.Clients, cfg.Pool))()
 	nl := &noteLog[int, int64]{}
 	c, err := theine.NewBuilder[int, int64](cfg.MaxSize).UseEntryPool(cfg.Pool).RemovalListener(nl.listener()).Build()
 	if err != nil {
@@ -389,6 +390,7 @@ func c05Kinds(r *Run, idx int) {
 	kind := []string{"loading", "hybrid", "hybrid-loading"}[idx%3]
 	pool := (idx/3)%2 == 1
 	failPct := []int{0, 0, 25}[rng.Intn(3)]
+	defer r.Case(fmt.Sprintf("kinds round %d kind=%s pool=%v", idx, kind, pool))()
 	nl := &noteLog[int, int64]{}
 	a, err := newAnyCache(kind, anyOpts{MaxSize: 100000, Listener: nl.listener(), Pool: pool, Prob: 1, ProbSet: true})
 	if err != nil {
@@ -510,6 +512,7 @@ func c05HybridEvictions(r *Run, idx int) {
 	pool := (idx/2)%2 == 1
 	failPct := []int{50, 100}[rng.Intn(2)]
 	M := []int64{8, 16, 64}[rng.Intn(3)]
+	defer r.Case(fmt.Sprintf("hybrid-evictions round %d kind=%s maxsize=%d pool=%v", idx, kind, M, pool))()
 	bar := &secBarrier{}
 	internal.VerifSetHook(bar.hook)
 	defer internal.VerifSetHook(nil)
